@@ -46,8 +46,8 @@ def rockit_side(args):
         buf = io.StringIO()
         with contextlib.redirect_stdout(buf):
             B = CS.build_rockit(case, rockit)
-            ob = nlp.observe(B, case, extras_fn)
             out["inputs"] = impl_inputs(B, case)
+            ob = nlp.observe(B, case, extras_fn)
             targets = [nlp.flatten_point(ob, pt) for pt in points]
             objs, rows = nlp.rockit_rows(ob, targets)
             out["objs"] = objs
@@ -141,21 +141,59 @@ def match_rows(mrows, rrows):
     return um, ur
 
 
+BIG = 1e7
+
+
+def unjudgeable(objs, mrows, rres):
+    """values that overflowed or are so large that float64 cancellation noise exceeds the
+    tolerance: the case carries no information (counted as skipped, never as an alarm)"""
+    vals = list(objs) + list(rres.get("objs", []))
+    for r in mrows:
+        vals += r[4]
+    for s_, hs in rres.get("rows", []):
+        vals += hs
+    return any((not math.isfinite(v)) or abs(v) > BIG for v in vals)
+
+
+def model_accepts(mvals):
+    v = mvals[0]
+    return v[3] if (isinstance(v, tuple) and len(v) >= 4 and isinstance(v[3], bool)) else True
+
+
 def compare_case(case, mvals, rres, judge_kinds=None, judge_obj=True):
     """returns list of disagreement dicts (empty = agree)"""
     dis = []
+    if not model_accepts(mvals):
+        if "error" in rres:
+            return []
+        return [{"what": "the specification is rejected by the model (constraint that cannot be placed) "
+                         "but rockit transcribed it without raising"}]
+    if "error" in rres and ("You passed a constant" in rres["error"] or "never statisfied" in rres["error"]):
+        # a generated relation folded to a constant inside CasADi: the model has no symbolic
+        # simplifier, the case is skipped (counted, never an alarm)
+        return []
     if "error" in rres:
         return [{"what": "rockit raised on a case the model transcribes", "error": rres["error"],
                  "trace": rres.get("trace")}]
     if "mismatch" in rres:
         return [{"what": "structural mismatch", "detail": rres["mismatch"]}]
     objs, mrows, Xs = model_rows(mvals)
+    if unjudgeable(objs, mrows, rres):
+        return []
     if judge_obj:
         for a, b in zip(rres["objs"], objs):
             if not close(a, b, scale=abs(b)):
                 dis.append({"what": "objective differs", "rockit": a, "model": b})
                 break
     um, ur = match_rows(mrows, rres["rows"])
+    def const_true(mr):
+        # a row that is constant over all sample points and satisfied: CasADi folds such rows to a
+        # constant and rockit drops constant-true constraints (direct_method.py:259-261, 312-313)
+        hs = mr[4]
+        if max(hs) - min(hs) > 1e-12:
+            return False
+        return abs(hs[0]) <= 1e-12 if mr[3] == 0 else hs[0] <= 1e-12
+    um = [mr for mr in um if not const_true(mr)]
     for mr in um:
         if judge_kinds is None or mr[0] in judge_kinds:
             dis.append({"what": "model row has no counterpart in rockit's NLP",
